@@ -230,10 +230,10 @@ theorem derive_finish (c : Crs) (sr sr0 : SR XR) (hf : SpheroidFacts c.a.toRat c
     (hda : d.a = some c.a.toRat) (hdb : d.b = (expected c).b) (hdes : d.es = (expected c).es) (hdep : d.ep2 = (expected c).ep2)
     (hdt : d.dtype = (expDatum c).1)
     (hdp : (if d.dtype = pjd3Param || d.dtype = pjd7Param then d.params else []) = (expDatum c).2.map some) :
-    ∃ r, deriveConstants sr = .ok r ∧ view r = some (expected c) := by
-  obtain ⟨ea, erf, eb, era, edat, _, _⟩ := hsr0_fields hsr0
+    ∃ r, deriveConstants sr = .ok r ∧ view r = some (expected c) ∧ r.datumCode = sr.datumCode := by
+  obtain ⟨ea, erf, eb, era, edat, edc, _⟩ := hsr0_fields hsr0
   have e8 := rest8_eq sr0 c.a.toRat c.rf.toRat hf (ea.trans h.a) (erf.trans h.rf) (eb.trans h.b) (era.trans h.ra)
-  refine ⟨finalSR sr0 c.a.toRat c.rf.toRat d ps, ?_, view_finalSR c sr sr0 h hsr0 d ps hda hdb hdes hdep hdt hdp⟩
+  refine ⟨finalSR sr0 c.a.toRat c.rf.toRat d ps, ?_, view_finalSR c sr sr0 h hsr0 d ps hda hdb hdes hdep hdt hdp, edc⟩
   have hnone : (rest8 sr0).datum = none := by rw [e8]; exact edat.trans h.datumNone
   unfold deriveConstants
   rw [deriveCore_eq, hdc]
@@ -253,7 +253,7 @@ theorem dcDatum_noTable (sr : SR XR)
   · rfl
 
 theorem derive_view (c : Crs) (sr : SR XR) (hf : SpheroidFacts c.a.toRat c.rf.toRat) (hd : datumWF c = true)
-    (h : CoreOK c sr) : ∃ r, deriveConstants sr = .ok r ∧ view r = some (expected c) := by
+    (h : CoreOK c sr) : ∃ r, deriveConstants sr = .ok r ∧ view r = some (expected c) ∧ r.datumCode = sr.datumCode := by
   have hbv : (expected c).b = some ((1 - 1 / c.rf.toRat) * c.a.toRat) := rfl
   rcases h.dat with ⟨ds, hcus, ht, hp, hnt⟩ | ⟨hnc, hp, hc1, hc2, hnt⟩ | ⟨hnc, dd, hc1, hc2, hl, hz⟩
   · -- a custom datum with its own shift
@@ -314,7 +314,7 @@ theorem derive_view (c : Crs) (sr : SR XR) (hf : SpheroidFacts c.a.toRat c.rf.to
       unfold dcDatum
       simp [hc1, hc2, hl, hz, Num.ofRat]
     have hs0 : ∀ sr0, sr0 = { sr with datumParams := [some 0, some 0, some 0], ellps := dd.ellipse.toList, datumName := if dd.datumName ≠ "" then dd.datumName.toList else sr.datumCode } →
-        ∃ r, deriveConstants sr = .ok r ∧ view r = some (expected c) := by
+        ∃ r, deriveConstants sr = .ok r ∧ view r = some (expected c) ∧ r.datumCode = sr.datumCode := by
       intro sr0 hsr0
       have e8 := rest8_eq sr0 c.a.toRat c.rf.toRat hf (by rw [hsr0]; exact h.a) (by rw [hsr0]; exact h.rf)
         (by rw [hsr0]; exact h.b) (by rw [hsr0]; exact h.ra)
